@@ -80,4 +80,6 @@ class ConstantModel(StatelessModel):
         if self.features is None:
             raise LeaspyModelInputError("The model was not properly initialized.")
         values = [individual_parameters[f] for f in self.features]
-        return torch.tensor([[values] * len(timepoints)], dtype=torch.float32)
+        # `timepoints` may be a single time-point (scalar) or any array-like of time-points
+        n_timepoints = torch.as_tensor(timepoints).reshape(-1).shape[0]
+        return torch.tensor([[values] * n_timepoints], dtype=torch.float32)
